@@ -5,7 +5,7 @@ replaces those two module attributes (never the real modules) by the shims below
 
     sched = Scheduler(tape)
     mod.threading = ThreadingShim(sched)
-    mod.time = VirtualClock()
+    mod.time = VirtualClock(sched)
 
 Model
 -----
@@ -27,7 +27,8 @@ Model
 * Timed waits: a `wait(timeout)`/`join(timeout)` that cannot proceed times out only when no thread is
   runnable (virtual time, nobody sleeps).  Polling loops whose time-out branch has no side effect (all
   the loops of the data logger are of that kind) therefore do not blow up the schedule tree; a time-out
-  taken earlier would only stutter.  If several timed waits are pending the tape picks which one expires.
+  taken earlier would only stutter.  If several timed waits are pending the tape picks which one expires
+  (listed least-recently-run first, so the default choice 0 is fair to every waiter).
 * Thread start (eager_start=True, the default): `Thread.start()` runs the new thread at once up to its first
   synchronisation operation and only then lets the tape decide again.  This removes one schedule-tree
   branch per operation of the starter; it is a sound reduction when the start-up segment of the thread
@@ -74,7 +75,7 @@ class _T:
     """Scheduler-side state of one managed thread."""
 
     __slots__ = ("tid", "name", "go", "pending", "done", "os_thread", "exc", "exc_tb", "started", "where",
-                 "seen", "poll_epoch")
+                 "seen", "poll_epoch", "last_run")
 
     def __init__(self, tid: int, name: str):
         self.tid = tid
@@ -88,6 +89,7 @@ class _T:
         self.exc_tb: str = ""
         self.where: str = ""
         self.seen: dict = {}  # (code, instruction, kind, object) -> epoch in which this thread last announced it
+        self.last_run = 0  # scheduling step at which the thread was last picked
         self.poll_epoch = -1  # epoch in which the thread was found to be polling (see Scheduler.point)
 
 
@@ -166,17 +168,25 @@ class Scheduler:
         if self.steps > self.max_steps:
             self.failure = Deadlock("livelock", f"more than {self.max_steps} scheduling steps in one case")
             return None
+        nxt = self._pick2(cur)
+        if nxt is not None:
+            nxt.last_run = self.steps
+        return nxt
+
+    def _pick2(self, cur: _T) -> Optional[_T]:
         order = self._order(cur)
         runnable = [t for t in order if self._can_run(t)]
         if runnable:
             return self._choose(runnable)
-        timed = [t for t in order if self._timed(t)]
+        # nobody can run: a time-out expires / a polling thread polls again - the one that has not run for the
+        # longest time first, so that the default schedule is fair to every waiter
+        timed = sorted((t for t in order if self._timed(t)), key=lambda t: t.last_run)
         if timed:
             self.idle += 1
             if self.idle > self.idle_limit:
                 self.failure = Deadlock(
                     "livelock",
-                    f"{self.idle} consecutive time-outs with no other operation in between; pending: "
+                    f"{self.idle} consecutive time-outs/polls without any change of synchronisation state; pending: "
                     + self._pending_text(),
                 )
                 return None
